@@ -1384,6 +1384,13 @@ class Interp(object):
             return list(v)
         if v is None or isinstance(v, (bool, int, float, Fraction)):
             raise AbsRaise("TypeError", ("'%s' object is not iterable" % type(v).__name__,))
+        if isinstance(v, AObj) and v.cls in self.repo.classes:
+            # the iteration protocol of a repository class: __iter__ (a generator function or one returning an iterator)
+            q, f = self.repo.find_method(v.cls, "__iter__")
+            if f is not None:
+                r = self.call(self.getattr(v, "__iter__"), [])
+                if r is not v:
+                    return self.iterate(r, node)
         self.unsupported("iteration over %r" % (v,), node)
 
     # ------------------------------------------------------------------ statements
